@@ -56,6 +56,9 @@ T = {
  "C18": ("property-based differential testing against libc printf/scanf (byte-stream PBT over the flag x width x precision x conversion cross product, validated layout model for big values, recording allocator)",
          "Generated formats (every subset of the flags - + space # 0, widths incl. * positive/negative, precisions incl. .* negative and the empty '.', conversions d i o x X for Z/Q/N/M and e f g E G for F, alone or between standard conversions) are passed to all eight members of the gmp_printf family; output, return value, truncation behaviour of snprintf into exact-size buffers, asprintf block size and %n are compared byte for byte with libc on the equal long/double value, and with a layout model validated against libc in the same run where C has no counterpart (signed o/x/X, multi-limb values); gmp_sscanf/gmp_fscanf must read back what was printed with the C-style field count. Exploration with a differential oracle.",
          "DESIGN.md section 5 C18"),
+ "C19": ("stateful property-based testing (twin-state histories, refint range checks) + fixed-threshold statistical batteries",
+         "Generated histories over all three generator kinds and every lc_2exp_size table entry with special and multi-limb seeds: interleaved draws of every random function are range-checked and replayed on a twin state (same algorithm and seed, or a gmp_randinit_set copy taken at a generated point) which must produce identical values; statistics batches (chi-square of top/low bytes, per-bit frequencies, binned urandomm, and absence of short periods in the 1-bit stream of the linear congruential kinds) use fixed acceptance regions with false-alarm probability below 1e-12. Exploration over histories; detects gross bias only, as the property asks.",
+         "DESIGN.md section 5 C19"),
 }
 built = [i for i in ids if i in T and (os.path.exists(os.path.join(ROOT, "props", i + ".cc")) or os.path.exists(os.path.join(ROOT, "props", i + "_run.py")))]
 checks = []
